@@ -51,6 +51,7 @@ class SimFS:
         self.yield_hook = None
         self.fds = {}
         self.next_fd = 1000
+        self.opened_for_writing = []
 
     # -- helpers -------------------------------------------------------------
     def abspath(self, path):
@@ -179,6 +180,8 @@ class SimFS:
             return _DeadFile()
         reading = m in ("r", "r+", "w+", "a+", "x+")
         writing = m != "r"
+        if writing:
+            self.opened_for_writing.append(p)
         if m[0] == "r":
             if p in self.dirs:
                 raise IsADirectoryError(errno.EISDIR, "Is a directory", p)
